@@ -393,8 +393,8 @@ def rule_Q4(ctx):
                 n += 1
                 ok = norm(c.left).endswith(".mode.lower()") and c.comparators[0].value == "audio"
                 ctx.ob("Q4", c, "track mode is compared case-insensitively with 'audio'", ok, norm(c), inst=f"{q}:{norm(c)}")
-    if n < 3:
-        raise AnalysisError("Q4", "-", f"{n} mode comparisons found (confirmed: 3)")
+    if n < 2:
+        raise AnalysisError("Q4", "-", f"{n} mode comparisons found (confirmed: 3; at least the data-track test and the CDDA track filter)")
 
 
 def rule_C1(ctx):
@@ -671,6 +671,9 @@ def rule_C2(ctx):
             facts[c[0]] = val
         if contradictory:
             continue
+        # the two tests are complements element by element: no non-audio track means every track is audio
+        if facts.get("exists") is False and "all" not in facts:
+            facts["all"] = True
         if facts.get("exists") is True and facts.get("all") is True:
             continue  # both cannot hold for a non-empty... (exists non-audio excludes all-audio)
         calls = [(norm(c.func), evaluator(ctx, fn, e).ev(c).key()) for c, e, st in calls_on(p)
